@@ -1163,6 +1163,8 @@ fn rotate(i: u64, n: u64, seed: u64) -> u64 {
 }
 
 fn main() {
+    // a stack overflow / abort in the code under test must become a verdict, not a dead check
+    vcore::supervise("C11");
     let ctx = Ctx::from_args("C11", "exploration");
     let thorough = !ctx.quick();
     let world = World::new();
